@@ -59,3 +59,26 @@ Definition pairs_agree (model expd : list (nat * nat)) : bool :=
   && forallb (fun a => existsb (fun e => fst e =? fst a) expd) model.
 
 Definition no_more {E} (l : list E) : bool := match l with [] => true | _ => false end.
+
+(* state-based comparison of rank attributes: previous ranks updated by the writes of this step *)
+Fixpoint set_opt_nth (n : nat) (v : option nat) (l : list (option nat)) : list (option nat) :=
+  match l, n with
+  | [], _ => []
+  | _ :: t, O => v :: t
+  | h :: t, S k => h :: set_opt_nth k v t
+  end.
+Definition apply_rank_writes (prev : list (option nat)) (attrs : list (nat * nat * float)) : list (option nat) :=
+  fold_left (fun acc a => set_opt_nth (fst (fst a)) (Some (snd (fst a))) acc) attrs prev.
+Definition opt_nat_same (a b : option nat) : bool :=
+  match a, b with Some x, Some y => x =? y | None, None => true | _, _ => false end.
+Fixpoint olist_same (a b : list (option nat)) : bool :=
+  match a, b with
+  | [], [] => true
+  | x :: a', y :: b' => opt_nat_same x y && olist_same a' b'
+  | _, _ => false
+  end.
+(* crowding attribute of every index written in this step = its last write *)
+Definition crowding_agree (attrs : list (nat * nat * float)) (crowd_after : list float) : bool :=
+  forallb (fun a => match find (fun b => fst (fst b) =? fst (fst a)) (rev attrs) with
+                    | Some b => fsame (snd b) (nth (fst (fst a)) crowd_after nan)
+                    | None => false end) attrs.
